@@ -238,7 +238,11 @@ func c04Program(c *run.Ctx, idx uint64) {
 		rz.ResetLog()
 	}
 	vm := ref.NewVM(cfg.vb, cfg.pal)
-	c04Feed(c, &z, rz, vm, cfg, ops, "direct")
+	dst, logged := viaLogger(r, 8, &z)
+	if logged {
+		c.Count("through_destination_logger", 1)
+	}
+	c04Feed(c, dst, rz, vm, cfg, ops, "direct")
 }
 
 // c04Feed feeds ops to dst (the Renderer, possibly behind a recorder) and
